@@ -250,7 +250,12 @@ func main() {
 	findings := loadFindings()
 	ev := aggregate(prop, pi, *tier, seed, jobs, findings, isum)
 	ev.WallS = time.Since(start).Seconds()
-	writeEvidence(prop, ev)
+	if *only == "" {
+		writeEvidence(prop, ev)
+	} else {
+		// a partial run (development aid) must not replace the evidence of a full run
+		fmt.Fprintln(os.Stderr, "check: --only given, evidence file left untouched")
+	}
 	for _, l := range ev.lines {
 		fmt.Println(l)
 	}
